@@ -118,6 +118,12 @@ fn state_zoo() -> Vec<(u32, u32, Vec<Op>)> {
     let smp = |v: &[u32]| api(Call::SetMode(v.to_vec(), true));
     let rmp = |v: &[u32]| api(Call::ResetMode(v.to_vec(), true));
     let mut z: Vec<(u32, u32, Vec<Op>)> = vec![];
+    // tab stops left beyond a narrowed screen, and HT already taken from there
+    z.push((20, 3, vec![a(Call::Resize(Some(3), Some(5))), a(Call::Tab)]));
+    z.push((20, 3, vec![cup(1, 18), a(Call::SetTabStop), a(Call::Resize(Some(3), Some(10))), cup(1, 9), a(Call::Tab)]));
+    // already 132 columns wide (by DECCOLM), region with top > 0, origin mode
+    z.push((10, 6, vec![smp(&[3]), a(Call::SetMargins(Some(3), Some(5))), smp(&[6]), cup(2, 4), dr("m")]));
+    z.push((132, 6, vec![a(Call::SetMargins(Some(2), Some(4))), smp(&[6]), cup(1, 132), dr("m")]));
     // reverse video with cells and a cursor rendition that are NOT reverse
     z.push((8, 4, vec![cup(2, 1), dr("abc"), smp(&[5]), a(Call::Sgr(vec![27])), cup(1, 1), dr("xy"), cup(2, 2)]));
     // a rendition saved before DECSCNM comes back after it
@@ -280,6 +286,200 @@ fn own_cands(prop: &str, cols: u32, lines: u32, r: &mut Rng) -> Vec<Call> {
         }
     }
     c
+}
+
+
+/// Parameter values that are nobody's boundary but somebody's accident: around powers of two (a
+/// shift or mask that wraps), around 100 / 1000, the last values the parser can deliver.
+const ODD_PARAMS: [u32; 56] = [
+    6, 7, 8, 15, 16, 17, 31, 32, 33, 34, 35, 36, 63, 64, 65, 66, 67, 95, 96, 97, 98, 99, 100, 109, 127, 128, 129, 130, 131,
+    132, 133, 255, 256, 257, 258, 259, 260, 511, 512, 513, 1000, 1023, 1024, 1025, 2048, 4095, 4096, 4097, 8191, 8192,
+    9983, 9984, 9985, 9986, 9987, 9998,
+];
+
+/// the property's one-parameter operations, with the given parameter
+fn own_param_ops(prop: &str, p: u32) -> Vec<Call> {
+    let o = Some(p);
+    match prop {
+        "C05" => vec![Call::CursorUp(o), Call::CursorDown(o), Call::CursorForward(o), Call::CursorBack(o), Call::CursorDown1(o),
+                      Call::CursorUp1(o), Call::CursorToColumn(o), Call::CursorToLine(o), Call::CursorPosition(o, Some(2)),
+                      Call::CursorPosition(Some(2), o)],
+        "C06" => vec![Call::InsertLines(o), Call::DeleteLines(o), Call::SetMargins(o, None), Call::SetMargins(Some(1), o)],
+        "C07" => vec![Call::EraseInDisplay(o), Call::EraseInLine(o), Call::EraseCharacters(o)],
+        "C08" => vec![Call::Sgr(vec![p]), Call::Sgr(vec![38, 5, p]), Call::Sgr(vec![48, 2, p, 1, 2]), Call::Sgr(vec![38, 2, 1, 2, p]),
+                      Call::Sgr(vec![1, p, 4])],
+        "C12" => vec![Call::SetMode(vec![p], false), Call::SetMode(vec![p], true), Call::ResetMode(vec![p], false),
+                      Call::ResetMode(vec![p], true), Call::SetMode(vec![4, p], false), Call::ResetMode(vec![7, p], true)],
+        "C13" => vec![Call::InsertCharacters(o), Call::DeleteCharacters(o)],
+        "C18" => vec![Call::ClearTabStop(o)],
+        _ => vec![],
+    }
+}
+
+/// every one-parameter operation of the property x every odd parameter, from three states
+fn odd_param_sessions(prop: &str, r: &mut Rng) -> Vec<Session> {
+    if own_param_ops(prop, 1).is_empty() {
+        return vec![];
+    }
+    let mut out = vec![];
+    let (cols, lines) = (7u32, 4u32);
+    let states: Vec<Vec<Op>> = vec![
+        { let mut v = fill_markers(cols, lines, false); v.push(api(Call::CursorPosition(Some(2), Some(3)))); v },
+        { let mut v = fill_markers(cols, lines, true); v.extend(region_setup(Some((1, 2)), true)); v.push(api(Call::CursorPosition(Some(1), Some(6)))); v },
+        { let mut v = fill_markers(cols, lines, false); v.push(api(Call::SetMode(vec![4], false))); v.push(api(Call::CursorPosition(Some(4), Some(7)))); v.push(api(Call::Draw("w".into()))); v },
+    ];
+    for (k, st) in states.into_iter().enumerate() {
+        let mut ops = vec![Op::Quiet(true)];
+        ops.extend(st);
+        ops.push(Op::Snap);
+        ops.push(Op::Quiet(false));
+        for p in ODD_PARAMS {
+            for c in own_param_ops(prop, p) {
+                push_cand(r, &mut ops, &c);
+                ops.push(api(Call::Draw("q".into())));
+                ops.push(api(Call::Display));
+                ops.push(Op::Back);
+            }
+        }
+        out.push(sess(format!("{}odd{}", prop.to_lowercase(), k), cols, lines, ops));
+    }
+    out
+}
+
+/// CSI sequences with many parameters (15 .. 100), whole and split: a recogniser or a listener that
+/// keeps its parameters in a fixed-size buffer shows here and nowhere else
+fn long_param_sessions(prop: &str, r: &mut Rng) -> Vec<Session> {
+    let mut out = vec![];
+    let codes: [u32; 12] = [1, 3, 4, 5, 7, 9, 31, 42, 22, 27, 39, 49];
+    for (k, n) in [15usize, 16, 17, 18, 31, 32, 33, 63, 64, 65, 100].iter().enumerate() {
+        let mut ops = vec![];
+        // SGR whose LAST parameters matter: rgb background at the end, bold at the very end
+        let mut v: Vec<u32> = (0..*n).map(|i| codes[i % codes.len()]).collect();
+        let l = v.len();
+        v[l - 1] = 1;
+        let mut w = v.clone();
+        if l >= 6 {
+            w[l - 5..].copy_from_slice(&[48, 2, 10, 20, 30]);
+        }
+        // mode lists: the last entry is IRM (4) / DECTCEM (25)
+        let mut m: Vec<u32> = (0..*n as u32).map(|i| 1000 + i).collect();
+        m[l - 1] = 4;
+        let mut mp: Vec<u32> = (0..*n as u32).map(|i| 2000 + i).collect();
+        mp[l - 1] = 25;
+        for c in [Call::Sgr(v), Call::Sgr(w), Call::SetMode(m.clone(), false), Call::ResetMode(mp.clone(), true), Call::SetMode(mp, true), Call::ResetMode(m, false)] {
+            if let Some(t) = gen::render_plain(r, &c) {
+                // whole
+                ops.push(Op::Feed(t.clone()));
+                ops.push(Op::Feed("x".into()));
+                // split at a random place
+                let cs: Vec<char> = t.chars().collect();
+                let cut = 1 + r.below((cs.len() - 1) as u32) as usize;
+                ops.push(Op::Feed(cs[..cut].iter().collect()));
+                ops.push(Op::Feed(cs[cut..].iter().collect()));
+                ops.push(Op::Feed("y".into()));
+            }
+            ops.push(api(c));
+            ops.push(api(Call::Draw("z".into())));
+        }
+        ops.push(api(Call::Display));
+        out.push(sess(format!("{}long{}", prop.to_lowercase(), k), 9, 3, ops));
+        // the same through the byte parser, one feed
+        let mut bops = vec![];
+        let v2: Vec<u32> = (0..*n).map(|i| codes[(i + 3) % codes.len()]).chain([48, 5, 196, 4]).collect();
+        if let Some(t) = gen::render_plain(r, &Call::Sgr(v2)) {
+            bops.push(Op::FeedB(t.into_bytes()));
+            bops.push(Op::FeedB(b"k".to_vec()));
+        }
+        bops.push(api(Call::Display));
+        let mut bs = sess(format!("{}longb{}", prop.to_lowercase(), k), 9, 3, bops);
+        bs.bytes = true;
+        out.push(bs);
+    }
+    out
+}
+
+/// 8-bit mode fed with chunks that happen to be well-formed UTF-8 (whole, split, mixed), with the
+/// four character sets: each byte is one code point whatever the chunk looks like
+fn eightbit_utf8_lookalikes() -> Vec<Session> {
+    let mut out = vec![];
+    let seqs: [&[u8]; 9] = [b"\xc3\xa9", b"\xc3\xb4", b"\xc4\xb3", b"\xe2\x82\xac", b"\xf0\x9f\x98\x80", b"a\xc3\xa9b", b"\xc2\xa0\xc2\xa0",
+                            b"\xef\xbb\xbfq", b"q\xd7\x90\xd7\x91"];
+    for (k, code) in ["B", "0", "U", "V"].iter().enumerate() {
+        let mut ops = vec![Op::Charset("@".into()), api(Call::DefineCharset(code.to_string(), "(".into())),
+                           api(Call::DefineCharset("U".into(), ")".into()))];
+        for s in seqs {
+            ops.push(Op::FeedB(s.to_vec()));
+            ops.push(Op::FeedB(b"\r\n".to_vec()));
+            // the same bytes one at a time, and after SO
+            for b in s {
+                ops.push(Op::FeedB(vec![*b]));
+            }
+            ops.push(Op::FeedB(b"\x0e".to_vec()));
+            ops.push(Op::FeedB(s.to_vec()));
+            ops.push(Op::FeedB(b"\x0f\r\n".to_vec()));
+        }
+        // back to UTF-8: the same chunks decode as UTF-8 again
+        ops.push(Op::Charset("G".into()));
+        for s in seqs {
+            ops.push(Op::FeedB(s.to_vec()));
+        }
+        ops.push(api(Call::Display));
+        let mut se = sess(format!("c20u8like{}", k), 12, 4, ops);
+        se.bytes = true;
+        out.push(se);
+    }
+    out
+}
+
+/// two (three) nested DECSC at columns that a later shrink of the width makes illegal, then as many DECRC
+fn nested_saves_then_shrink() -> Vec<Session> {
+    let mut out = vec![];
+    let mut n = 0;
+    for (cols, xs) in [(12u32, vec![10u32, 12]), (12, vec![12, 7, 11]), (20, vec![20, 19]), (9, vec![3, 9, 6])] {
+        for newc in [1u32, 2, 3, 5, cols - 1] {
+            for how in 0..2 {
+                let mut ops = vec![];
+                for (i, x) in xs.iter().enumerate() {
+                    ops.push(api(Call::CursorPosition(Some(1 + (i as u32 % 3)), Some(*x))));
+                    if *x == cols {
+                        ops.push(api(Call::Draw("w".into()))); // pending wrap: x == columns
+                    }
+                    ops.push(api(Call::Sgr(vec![31 + i as u32])));
+                    ops.push(api(Call::SaveCursor));
+                }
+                ops.push(api(Call::CursorPosition(Some(1), Some(1))));
+                if how == 0 {
+                    ops.push(api(Call::Resize(None, Some(newc))));
+                } else {
+                    ops.push(api(Call::Resize(Some(2), Some(newc))));
+                }
+                for _ in 0..xs.len() + 1 {
+                    ops.push(api(Call::RestoreCursor));
+                    ops.push(api(Call::Draw("r".into())));
+                    ops.push(api(Call::Display));
+                }
+                n += 1;
+                out.push(sess(format!("c14shrink{}", n), cols, 3, ops));
+            }
+        }
+    }
+    // the in-stream shrink: 132 -> 80 by DECCOLM
+    for xs in [vec![100u32, 120], vec![132, 90, 131]] {
+        let mut ops = vec![api(Call::SetMode(vec![3], true))];
+        for x in &xs {
+            ops.push(api(Call::CursorPosition(Some(2), Some(*x))));
+            ops.push(api(Call::SaveCursor));
+        }
+        ops.push(api(Call::ResetMode(vec![3], true)));
+        for _ in 0..xs.len() + 1 {
+            ops.push(api(Call::RestoreCursor));
+            ops.push(api(Call::Draw("r".into())));
+        }
+        ops.push(api(Call::Display));
+        n += 1;
+        out.push(sess(format!("c14shrink{}", n), 80, 3, ops));
+    }
+    out
 }
 
 /// every operation the property owns, from every state of the zoo; after the operation a probe
@@ -1523,6 +1723,16 @@ pub fn generate(prop: &str, tier: &str, seed: u64) -> Vec<Session> {
     }
     if !matches!(prop, "C02" | "C03" | "C11" | "C17b") {
         out.extend(zoo_sessions(prop, tier, &mut r));
+    }
+    out.extend(odd_param_sessions(prop, &mut r));
+    if matches!(prop, "C02" | "C03" | "C08" | "C12" | "C01") {
+        out.extend(long_param_sessions(prop, &mut r));
+    }
+    if matches!(prop, "C20" | "C11" | "C02" | "C04") {
+        out.extend(eightbit_utf8_lookalikes());
+    }
+    if matches!(prop, "C14" | "C09" | "C16" | "C01") {
+        out.extend(nested_saves_then_shrink());
     }
     match prop {
         "C05" => out.extend(enum_c05(tier, &mut r)),
